@@ -88,6 +88,8 @@ class CriticalObjectFilterConfig:
         self.ignore_attributes: Optional[List[str]] = ignore_attributes
 
         num_elements: int = len(self.target_labels)
+        if (max_x_position_list or max_y_position_list) and (max_distance_list or min_distance_list):
+            raise RuntimeError("Either max x/y position or max/min distance should be specified")
         if max_x_position_list and max_y_position_list:
             self.max_x_position_list: List[float] = check_thresholds(max_x_position_list, num_elements)
             self.max_y_position_list: List[float] = check_thresholds(max_y_position_list, num_elements)
